@@ -35,14 +35,16 @@ def gen_handlers(rng):
             caps.append(rng.choice(caps))          # duplicate capability entries
         same_id = rng.random() < 0.7
         ident = (3, 0x46d, 0xc31c, 0x110) if same_id else (rng.randrange(6), rng.randrange(65536), rng.randrange(65536), rng.randrange(65536))
-        hs.append({"phys": rng.choice(phys), "id": ident, "name": "h%d" % i, "caps": [EV[c] for c in caps]})
+        # the unique id (bluetooth address, serial) may be empty, shared, or differ between handlers of one location
+        uniq = rng.choice(["", "", "", "aa:bb:cc", "aa:bb:cc", "dd:ee"])
+        hs.append({"phys": rng.choice(phys), "id": ident, "name": "h%d" % i, "caps": [EV[c] for c in caps], "uniq": uniq})
     return hs
 
 
 def ops_for(hs):
     out = ["h.reset"]
     for h in hs:
-        out.append("h %s %d %d %d %d %s %s" % ((hx(h["phys"]),) + h["id"] + (hx(h["name"]), ",".join(map(str, h["caps"])) or "-")))
+        out.append("h %s %d %d %d %d %s %s %s" % ((hx(h["phys"]),) + h["id"] + (hx(h["name"]), ",".join(map(str, h["caps"])) or "-", hx(h.get("uniq", "")))))
     out.append("norm")
     return out
 
